@@ -8,9 +8,10 @@ asked only for base tables the statement names, under one spelling, and the line
 """
 import itertools
 import re
+import urllib.parse
 import engine as E
 import pfam, sqlgen
-from canon_ext_cache import provider, path_class, hx, fnv1a
+from canon_ext_cache import provider, path_class, hx, fnv1a, ABS_SANDBOX
 
 # name groups of the exhaustive small-scope stream: each group probes one hazard next to plain names
 GROUPS = [
@@ -24,10 +25,29 @@ GROUPS = [
     ["q#bad", "w#empty"],
     ["", "`s.t`", "s.t"],
     ["a\0b", "a"],
+    ["a%2Fb", "a/b"],
+    ["", ".", ".."],
+    [ABS_SANDBOX + "/x", "x"],
+    ["é表", "a b"],
+]
+# foreign files next to a name group: (group, [(file name, text)]) — files of an earlier version whose raw name is no canonical encoding (must be ignored),
+# and a canonical file with the provider's text (must be trusted by the next process)
+LEGACY_GROUPS = [
+    (["a b", "a"], [("a b.sql", "CREATE TABLE legacy (z INT)"), ("a%20b.sql", None)]),
+    (["a/b", "a%2fb"], [("a%2fb.sql", "CREATE TABLE legacy (z INT)"), ("a%2Fb.sql", None)]),
+    (["é", "A"], [("é.sql", "CREATE TABLE legacy (z INT)"), ("%41.sql", "CREATE TABLE legacy (z INT)"), ("%C3%A9.sql", None)]),
 ]
 NAMES = ["a", "b", "c", "s.t", "`s.t`", "`s`.`t`", "S.T", "a b", "é表", "x-y", "a.b", "a.b.c", ".a", "a.", "..", "sql", "a.sq", ".sq", "a.sql.b",
          "x.sql", ".sql", "a.sqlx", ".sql.sql", "s/t", "./a", "a/./b", "../x", "a//b", "a/", "a\0b", "q#cr", "r#cr", "q#crlf", "q#bad", "w#empty",
-         "", "*", "a?b", "a:b", "a;b", "a'b", "a\"b", "a\\b", "~", "-", "CON", "a\tb", "a\nb", "A", "a.SQL"]
+         "", "*", "a?b", "a:b", "a;b", "a'b", "a\"b", "a\\b", "~", "-", "CON", "a\tb", "a\nb", "A", "a.SQL",
+         ".", "a%2Fb", "a%2fb", "a/b", "%", "%41", "%2", "a%", " ", "a ", ABS_SANDBOX + "/", ABS_SANDBOX + "//x", ABS_SANDBOX + "/x", ABS_SANDBOX + "/./y", "..sql", "a.sql.tmp", "a.tmp", "x.tmp",
+         "a\u3000b", "😀", "\x80", "\x7f", "\u07ff", "\u0800", "\ud7ff", "\ue000", "\uffff", "\U00010000", "\U0010ffff", "\ufffd", "a\u0301", "Ω.表"]
+# foreign directory entries of the random histories: non-canonical stems (raw blank / non-ASCII, lower-case, incomplete, non-UTF-8, overlong, surrogate escapes,
+# an escaped safe character), other suffixes; `None` = the provider's text for the name the stem decodes to (a canonical file somebody else put there)
+JUNK = "CREATE TABLE legacy (z INT)"
+FILES = [("a b.sql", JUNK), ("é表.sql", JUNK), ("a%2fb.sql", JUNK), ("%41.sql", JUNK), ("%FF.sql", JUNK), ("%C0%AF.sql", JUNK), ("%ED%A0%80.sql", JUNK), ("%.sql", JUNK),
+         ("a%2.sql", JUNK), ("%2Fa%.sql", JUNK), ("x.sql.tmp", JUNK), ("b.sql.tmp", ""), ("a.SQL", JUNK), ("a.sql.bak", JUNK), ("%F4%90%80%80.sql", JUNK), ("%EF%BF%BD.sql", None),
+         ("a%20b.sql", None), ("s%2Ft.sql", None), ("%C3%A9%E8%A1%A8.sql", None), ("b.sql", None), ("..%2Fx.sql", None), ("%25.sql", None), ("a%00b.sql", None)]
 CRASHES = [(1, 0), (2, 0), (3, 0), (3, 7), (3, 10 ** 6), (4, 0), (5, 0)]      # (atomic steps completed, characters flushed), see Cache.get
 
 
@@ -43,8 +63,32 @@ def req(ops):
     return "CACHE " + E.enhex(";".join(ops))
 
 
+def op_put(fn, text):
+    """somebody else writes `fn` into the cache directory; text `None` = the provider's text for the table the file name stands for"""
+    if text is None:
+        assert fn.endswith(".sql")
+        text = provider(urllib.parse.unquote(fn[:-4]))
+    return "put:%s:%s" % (hx(fn), hx(text))
+
+
 def name_of(op):
     return bytes.fromhex(op.split(":")[-1]).decode("utf-8") if op.startswith(("get:", "crash:")) else None
+
+
+def put_of(op):
+    """(file name, text) of a `put`"""
+    if not op.startswith("put:"):
+        return None
+    _, f, t = op.split(":")
+    return bytes.fromhex(f).decode("utf-8", "surrogateescape"), bytes.fromhex(t).decode("utf-8")
+
+
+def canonical_table(fn):
+    """the table a directory entry stands for: the name whose encoding + `.sql` it is, else None (independent of the library: the specification of the naming scheme)"""
+    if not fn.endswith(".sql") or not fn.isascii():
+        return None
+    n = urllib.parse.unquote(fn[:-4], errors="replace")
+    return n if urllib.parse.quote(n, safe="") + ".sql" == fn else None
 
 
 def hazard(n):
@@ -53,6 +97,10 @@ def hazard(n):
     if "/" in n: return "slash"
     if ".sql" in n: return "dotsql"
     if n.endswith("#cr"): return "cr"
+    if "%" in n: return "percent"
+    if not n.isascii(): return "nonascii"
+    if n in ("", ".", ".."): return "dots"
+    if n != urllib.parse.quote(n, safe=""): return "escaped"
     return None
 
 
@@ -71,10 +119,22 @@ def judge(ops, a, expected):
     results, calls, d, parent = parse_answer(a)
     if len(results) != len(ops):
         return ("harness", 0, "result count")
-    inst, warm_mem, warm_disk, maybe = None, set(), set(), set()
+    inst, warm_mem, warm_disk, maybe, put_later = None, set(), set(), set(), set()
     for i, (op, r) in enumerate(zip(ops, results)):
         if op in ("new", "nodisk"):
+            if r.startswith("E:"):
+                return ("init-raises", i, "instantiation raised " + r[2:])
             inst, warm_mem = op, set()
+            warm_disk |= put_later              # a canonical file with the provider's text that somebody else put there is seen by the next process
+            put_later = set()
+            continue
+        if op.startswith("put:"):
+            fn, text = put_of(op)
+            m = canonical_table(fn)
+            if m is not None:
+                if text != provider(m):
+                    return ("harness", i, "the history plants a wrong text under a canonical name")
+                put_later.add(m)                # every other entry must stay without any effect: nothing to note
             continue
         n = name_of(op)
         if inst is None:
@@ -105,6 +165,8 @@ def judge(ops, a, expected):
 def signature(kind, ops, answer):
     """failure kind + the hazards left in the (shrunk) history; `crash` counts only if a process really died between the creation of the file and its rename"""
     hz = {h for h in (hazard(name_of(o)) for o in ops if name_of(o) is not None) if h}
+    if any(o.startswith("put:") and canonical_table(put_of(o)[0]) is None for o in ops):
+        hz.add("foreign-file")
     if answer.startswith("OK "):
         for o, r in zip(ops, parse_answer(answer)[0]):
             if o.startswith(("crash:2:", "crash:3:", "crash:4:")) and r[1:] == "CRASHED":
@@ -160,6 +222,13 @@ def histories(ctx, r):
         for k in range(1, depth + 1):
             for tail in itertools.product(alphabet, repeat=k):
                 seqs.append(["new"] + list(tail))
+    for g, files in LEGACY_GROUPS:
+        alphabet = ["new"] + [op_get(n) for n in g] + [op_put(f, t) for f, t in files] + [op_crash(g[0], (2, 0))]
+        for k in range(1, depth + 1):
+            for tail in itertools.product(alphabet, repeat=k):
+                if any(o.startswith("put:") for o in tail):
+                    seqs.append(["new"] + list(tail))
+                    seqs.append(list(tail))             # … the first process already finds the files
     n_exh = len(seqs)
     n_rand = 1500 if ctx.quick else 60000
     for i in range(n_rand):
@@ -169,12 +238,99 @@ def histories(ctx, r):
         ops = [r.choice(["new", "new", "nodisk"])]
         for _ in range(2 + r.below(12)):
             x = r.below(100)
-            if x < 60: ops.append(op_get(r.choice(pool)))
-            elif x < 75: ops.append(op_crash(r.choice(pool), r.choice(CRASHES)))
-            elif x < 93: ops.append("new")
-            else: ops.append("nodisk")
+            if x < 55: ops.append(op_get(r.choice(pool)))
+            elif x < 70: ops.append(op_crash(r.choice(pool), r.choice(CRASHES)))
+            elif x < 88: ops.append("new")
+            elif x < 94: ops.append("nodisk")
+            else:
+                fn, text = r.choice(FILES) if r.chance(0.7) else (urllib.parse.quote(r.choice(pool), safe="") + ".sql", None)
+                if len(fn.encode("utf-8")) <= 255:
+                    ops.append(op_put(fn, text))
         seqs.append(ops)
     return seqs, n_exh
+
+
+# ---------------------------------------------------------------------------------------------------------------------
+# the file name of a table (QUOTE) and the table of a directory entry (STEM)
+# ---------------------------------------------------------------------------------------------------------------------
+
+NAME_ALPHABET = list("ab.Z09_-~") + ["/", "\\", "%", " ", "\0", "\t", "\n", "é", "表", "😀", "\x7f", "\x80", "\u07ff", "\u0800", "\ud7ff", "\ue000", "\uffff", "\U00010000", "\U0010ffff",
+                                      "..", "./", "../", ".sql", ".tmp", "%2F", "%2f", "%25", "#", "?", ":", "*", "`", "'", "\"", "+", "&", "=", "@", "$", ",", ";", "(", "[", "{", "|", "<", "^", "!"]
+STEM_ALPHABET = list("ab.Z9_-~") + ["%2F", "%2f", "%25", "%20", "%00", "%41", "%7E", "%C3%A9", "%E8%A1%A8", "%F0%9F%98%80", "%C3", "%A9", "%FF", "%C0%AF", "%ED%A0%80", "%EF%BF%BD", "%F4%8F%BF%BF",
+                                    "%F4%90%80%80", "%", "%2", "%G0", "%0g", " ", "é", "表", "+", "\\", ".sql", ".tmp"]
+
+
+PLAIN = set("abcdefghijklmnopqrstuvwxyzABCDEFGHIJKLMNOPQRSTUVWXYZ0123456789_.-~")
+
+
+def judge_entry(f, n, a):
+    """STEM answer for the entry `f` (saved for table `n`, or generated: n = None) -> (ok, listed as, stands for)"""
+    want = n if n is not None else canonical_table(f)
+    got = "none" if a == "OK none" else (bytes.fromhex(a[8:]).decode("utf-8") if a.startswith("OK some ") else a)
+    return got == ("none" if want is None else want), got, want
+
+
+def file_names(ctx, r):
+    """model `Cache.enc` / `Cache.entryName` against the real class, and the real class against the specification of the naming scheme: the file name of a table is a
+    single component without NUL, different tables get different files, a name of letters, digits and `_.-~` keeps the file name of earlier versions, and the
+    directory listing reads a file back as the table it was saved for — and reads nothing else"""
+    n_rand = 1500 if ctx.quick else 40000
+    names = list(dict.fromkeys(NAMES + [x for g in GROUPS for x in g] + [chr(c) for c in range(0, 0x250)] +
+                               ["".join(r.choice(NAME_ALPHABET) for _ in range(1 + r.below(6))) for _ in range(n_rand)] +
+                               [chr(r.choice([r.below(0xD800), 0xE000 + r.below(0x110000 - 0xE000)])) for _ in range(n_rand // 3)]))
+    names = [n for n in names if len(urllib.parse.quote(n, safe="")) <= 240 and (not n.startswith("/") or n.startswith(ABS_SANDBOX + "/"))]
+    res, _ = ctx.corr(["QUOTE " + E.enhex(n) for n in names], stream="file-names")
+    by_file, stems = {}, []
+    for n, (_, a, _) in zip(names, res):
+        ctx.cov["evaluations"] += 1
+        if a.startswith("UNMODELLED"):
+            ctx.count("file-name:unmodelled")
+            continue
+        bad = None
+        fn = None
+        if not a.startswith("OK ") or "=" in a:
+            bad = ("file-name:no-single-file", "save_to_disk(%r) -> %s" % (n, a[:200]))
+        else:
+            fn = bytes.fromhex(a[3:]).decode("utf-8", "surrogateescape")
+            if "/" in fn or "\0" in fn or fn in (".", ".."):
+                bad = ("file-name:not-a-component", "table %r is saved as %r" % (n, fn))
+            elif by_file.setdefault(fn, n) != n:
+                bad = ("file-name:collision", "tables %r and %r share the file %r" % (by_file[fn], n, fn), by_file[fn])
+            elif all(c in PLAIN for c in n) and fn != n + ".sql":
+                bad = ("file-name:renamed-plain", "table %r, made of letters, digits and _.-~ only, is saved as %r (earlier versions: %r)" % (n, fn, n + ".sql"))
+            else:
+                stems.append((fn, n))
+        ctx.count("file-name:" + ("ok:" + (hazard(n) or "plain") if bad is None else bad[0]))
+        ctx.distinct.add(hash(a))
+        if bad:
+            pfam.report(ctx, bad[0], {"kind": "file-name", "name": n, "other": bad[2] if len(bad) > 2 else n, "observed": a[:300], "detail": bad[1],
+                                      "oracle": "c17: the cache file of a table is one directory entry, different for different tables", "how_found": "stream file-names"})
+    # entries: the files just seen (must be read back as their table), and generated stems (read as table n only if they are n's file)
+    gen = list(dict.fromkeys(["".join(r.choice(STEM_ALPHABET) for _ in range(1 + r.below(5))) + r.choice([".sql", ".sql", ".sql", ".sql.tmp", ".SQL", ""]) for _ in range(n_rand)] +
+                             [f for f, _ in FILES]))
+    gen = [(f, None) for f in gen if 0 < len(f.encode("utf-8")) <= 255 and f not in (".", "..") and f not in by_file]
+    entries = stems + gen
+    res2, _ = ctx.corr(["STEM " + E.enhex(f) for f, _ in entries], stream="directory-entries")
+    for (f, n), (_, a, _) in zip(entries, res2):
+        ctx.cov["evaluations"] += 1
+        ok, got, want = judge_entry(f, n, a)
+        ctx.count("directory-entry:" + ("saved-file-read-back" if n is not None else ("canonical" if want is not None else "ignored")) + ("" if ok else ":WRONG"))
+        ctx.distinct.add(hash(a))
+        if not ok:
+            sig = "directory-entry:" + ("not-read-back" if n is not None else ("not-ignored" if want is None else "canonical-not-listed"))
+            pfam.report(ctx, sig, {"kind": "directory-entry", "file": f, "saved_for": n, "observed": a[:300], "detail": "the entry %r is listed as %r; it stands for %r" % (f, got, want),
+                                   "oracle": "c17: __init__ lists a directory entry as table n exactly if it is the file of n", "how_found": "stream directory-entries"})
+    # entries whose name is not UTF-8 (implementation only: the model's names are Unicode strings): the instantiation must survive them
+    raw = [b"\xff\xfe.sql", b"a\xc3.sql", b"\xed\xa0\x80.sql", b"%FF\x80.sql"]
+    hist = [["put:%s:%s" % (b.hex(), hx(JUNK)), "new", op_get("a"), "new", op_get("a")] for b in raw]
+    for h, a in zip(hist, E.run_impl([req(h) for h in hist])):
+        ctx.cov["evaluations"] += 1
+        ok = a.startswith("OK P I[] +S#") and " E:" not in a and parse_answer(a)[0][4].startswith("-S#")
+        ctx.count("directory-entry:undecodable-name" + ("" if ok else ":WRONG"))
+        if not ok:
+            pfam.report(ctx, "init-raises:foreign-file", {"kind": "ops", "ops": h, "names": [name_of(o) for o in h], "observed": a[:400], "detail": "a directory entry whose name is not UTF-8",
+                                                          "oracle": "c17: a foreign file in the cache directory has no effect", "how_found": "stream directory-entries (undecodable names)"})
+    ctx.cov["distribution"]["file-names:distinct-files"] = len(by_file)
 
 
 # ---------------------------------------------------------------------------------------------------------------------
@@ -543,6 +699,8 @@ def run(ctx):
     for s, (_, a, b) in list(zip(seqs, res))[n_exh:n_exh + 3]:
         ctx.sample({"ops": [o if name_of(o) is None else o.split(":")[0] + " " + repr(name_of(o)) for o in s], "impl": a[:160], "model": b[:160]})
 
+    file_names(ctx, r.fork("file-names"))
+
     # lineage requests
     stmts = lineage_statements(r, 600 if ctx.quick else 20000) + [(d, t) for d, t in pfam.corpus_statements() if t.upper().startswith(("SELECT", "INSERT", "WITH"))][:300]
     for f in ctx.findings:
@@ -621,6 +779,19 @@ def replay(payload):
         j = judge_lineage(a)
         print("statement:", repr(payload["input"])); print("implementation:", a[:600]); print("verdict:", j)
         return 1 if j else 0
+    if payload.get("kind") == "file-name":
+        n = payload["name"]
+        a, b = E.run_impl(["QUOTE " + E.enhex(n), "QUOTE " + E.enhex(payload.get("other", n))])
+        print("table:", repr(n)); print("implementation:", a[:300]); print("detail:", payload.get("detail"))
+        fn = bytes.fromhex(a[3:]).decode("utf-8", "surrogateescape") if a.startswith("OK ") and "=" not in a else None
+        bad = fn is None or "/" in fn or "\0" in fn or fn in (".", "..") or (all(c in PLAIN for c in n) and fn != n + ".sql") or (payload.get("other", n) != n and a == b)
+        return 1 if bad else 0
+    if payload.get("kind") == "directory-entry":
+        f = payload["file"]
+        a = E.run_impl(["STEM " + E.enhex(f)])[0]
+        ok, got, want = judge_entry(f, payload.get("saved_for"), a)
+        print("directory entry:", repr(f)); print("implementation:", a[:300]); print("listed as %r, stands for %r" % (got, want))
+        return 0 if ok else 1
     ops = payload["ops"]
     names = sorted({name_of(o) for o in ops if name_of(o) is not None})
     exp = {}
